@@ -65,16 +65,10 @@ def run(ctx):
         if e["ev"] == "panic":
             ctx.notes.append("driver panic (judged by C12): %s" % json.dumps(e)[:200])
 
-    # binding self-tests on a depth-3 sum key: plant a past leaf in one found set; drop an update event
+    # binding self-tests on a depth-3 sum key: plant the seed of an exhausted subtree in one found set; drop an update event
     if not fails:
         seg = next(s for s in proj if s[0]["ev"] == "keygen" and s[0]["depth"] == 3 and not s[0]["compact"])
         iu = [i for i, e in enumerate(seg) if e["ev"] == "update"][4]      # 5th update: period 5 = 101b
-        c = [dict(e) for e in seg]
-        c[iu]["found"] = c[iu]["found"] + [[0, 1, 1]]                       # leaf 3 - a past signing key
-        p1 = ctx.path("selftest_past_leaf.ndjson")
-        vlib.write_ndjson(p1, c)
-        ok1, m1, _, _ = ctx.tlc_trace("crypto", "TraceKes", "TraceKesC13fs.cfg", p1, count=False)
-        ctx.selftest("plant past leaf 3 into the found set after update 5 (property reader)", (not ok1) and m1 == iu)
         c = [dict(e) for e in seg]
         c[iu]["found"] = c[iu]["found"] + [[0]]                             # seed of the left half: derives leaves 0..3
         p2 = ctx.path("selftest_past_seed.ndjson")
